@@ -25,6 +25,9 @@ FnStmts ==
   \cup {St(EDo(<<EAsg(m, EId(n))>>, ENum(0)), "") : n \in Vars, m \in Vars}                  \* alias inside a do-block
   \cup {St(EAsg(n, EDo(<<EAsg(m, ELam(<<Req("x")>>, EIf(EBin("lt", EId("x"), N1), ENum(0), ECall(EId(m), <<EBin("sub", EId("x"), N1)>>))))>>, EId(m))), "") : n \in Vars, m \in Vars}
   \cup {St(ECall(EId(n), <<ENum(2)>>), "") : n \in Vars}
+  \* a block-local name inside the function body must not hide the captured outer name after the block, whoever calls
+  \cup {St(EAsg(n, ELam(<<Req("x")>>, Plus(EDo(<<EAsg(m, ENum(5))>>, EId(m)), EId(m)))), "") : n \in Vars, m \in Vars}
+  \cup {St(EDo(<<EAsg(m, ENum(50))>>, ECall(EId(n), <<ENum(2)>>)), "") : n \in Vars, m \in Vars}     \* called under a local of the caller
 \* data values observed through their names: records (static / shorthand / computed keys, spreads), strings, booleans, null,
 \* field and index access, spreads into lists and calls, unary and logical operators - over whatever the names hold by then
 SA == Str(<<12>>)   \* "a"
@@ -81,7 +84,7 @@ Stmts == CASE Alphabet = "fn" -> FnStmts [] Alphabet = "data" -> DataStmts [] OT
 Init == SInit
 \* in the function alphabet the last statement of a behaviour is an observation (a call): the other last statements add
 \* nothing to what their prefixes already show
-FnObs == {St(ECall(EId(n), <<ENum(2)>>), "") : n \in Vars}
+FnObs == {St(ECall(EId(n), <<ENum(2)>>), "") : n \in Vars} \cup {St(EDo(<<EAsg(m, ENum(50))>>, ECall(EId(n), <<ENum(2)>>)), "") : n \in Vars, m \in Vars}
 Next == \E st \in Stmts : (Len(hist) < SDepth) /\ ((Alphabet = "fn" /\ Len(hist) = SDepth - 1) => (st \in FnObs)) /\ Do(st)
 Spec == Init /\ [][Next]_svars
 
